@@ -43,6 +43,8 @@ type hclPrinter struct {
 	blocks [nStages][]localDef
 	nloc   int
 	redef  int // number of redefinitions of a local in another block
+	bare   int // strings written as bare numbers / bools
+	idx    int // index / attribute accesses into a local
 	usedFn map[string]bool
 }
 
@@ -66,6 +68,39 @@ func encCall(fn string, args ...hx) string {
 }
 
 func qs(s string) hx { return hx{hclQuote(s), encStr(s)} }
+
+// bracket index e[k] and attribute access e.name (both: E.idx in the Lean model)
+func idxBr(e, k hx) hx { return hx{e.txt + "[" + k.txt + "]", "X[" + e.enc + k.enc + "]"} }
+func idxAttr(e hx, name string) hx {
+	return hx{e.txt + "." + name, "A[" + e.enc + encStr(name) + "]"}
+}
+
+var bareIntRe = regexp.MustCompile(`^(0|-?[1-9][0-9]{0,14})$`)
+
+// bare: a string that looks like a decimal number / a bool may be written as a bare HCL number / bool where a string is
+// expected: gohcl converts it to its text (`port = 8090` in a map[string]string denotes "8090")
+func bare(s string) (hx, bool) {
+	switch {
+	case s == "true" || s == "false":
+		return hx{s, encBool(s == "true")}, true
+	case bareIntRe.MatchString(s):
+		i, err := strconv.ParseInt(s, 10, 64)
+		if err != nil {
+			return hx{}, false
+		}
+		return hx{s, encInt(i)}, true
+	}
+	return hx{}, false
+}
+
+// lit: the string as a quoted literal, or (one time in two, when it looks like one) as a bare number / bool
+func (p *hclPrinter) lit(s string) hx {
+	if b, ok := bare(s); ok && p.fancy > 0 && p.r.Intn(2) == 0 {
+		p.bare++
+		return b
+	}
+	return qs(s)
+}
 
 func call(fn string, args ...hx) hx {
 	parts := make([]string, len(args))
@@ -178,7 +213,7 @@ func (p *hclPrinter) strLit(s string, allowHeredoc bool) hx {
 	if allowHeredoc && heredocOK(s) && p.r.Intn(2) == 0 {
 		return hx{heredoc(s), encStr(s)}
 	}
-	return qs(s)
+	return p.lit(s)
 }
 
 func decoyStr(s string) hx { return qs(s + "#decoy") }
@@ -188,9 +223,30 @@ func (p *hclPrinter) strExpr(s string, inline bool) hx {
 	if !p.roll() {
 		return p.strLit(s, !inline)
 	}
-	switch p.r.Intn(7) {
+	switch p.r.Intn(10) {
+	case 7:
+		// a member of an object local: local.m.key / local.m["key"]
+		p.idx++
+		key := []string{"key", "k2", "Content-Type", "a b"}[p.r.Intn(4)]
+		l, _ := p.newLocal("o", object(kvx{"other", qs("x")}, kvx{key, p.lit(s)}), object(kvx{key, decoyStr(s)}, kvx{"other", qs("x")}), stBase)
+		if identRe.MatchString(key) && p.r.Intn(2) == 0 {
+			return idxAttr(l, key)
+		}
+		return idxBr(l, qs(key))
+	case 8:
+		// a member of a tuple local: local.t[1]
+		p.idx++
+		l, _ := p.newLocal("t", tuple(qs("x"), p.lit(s), qs("y")), tuple(qs("x"), decoyStr(s)), stBase)
+		return idxBr(l, intLit(1))
+	case 9:
+		// a derived local picks the member of a base local; the base is redefined later
+		p.idx++
+		l, name := p.newLocal("o", object(kvx{"key", p.lit(s)}), object(kvx{"key", decoyStr(s)}), stBase)
+		d, _ := p.newLocal("d", idxAttr(l, "key"), decoyStr(s), stDerive)
+		p.lateRedef(name, object(kvx{"key", qs(s + "#late")}))
+		return d
 	case 0:
-		l, _ := p.newLocal("s", qs(s), decoyStr(s), stBase)
+		l, _ := p.newLocal("s", p.lit(s), decoyStr(s), stBase)
 		return l
 	case 1:
 		// interpolation of a local into a template: "${local.a}rest" or "begin${local.b}"
@@ -229,6 +285,9 @@ func (p *hclPrinter) strExpr(s string, inline bool) hx {
 			return call("index", tuple(qs("x"), qs(s)), hx{"1", encInt(1)})
 		}
 		p.fn("coalesce")
+		if p.r.Intn(2) == 0 {
+			return call("coalesce", hx{"null", "n"}, qs(s), qs("other"))
+		}
 		return call("coalesce", qs(s), qs("other"))
 	case 5:
 		// a local defined from another local (previous block)
@@ -424,6 +483,9 @@ func (p *hclPrinter) listExpr(ss []string) hx {
 	case 10:
 		if p.r.Intn(2) == 0 {
 			p.fn("coalescelist")
+			if p.r.Intn(2) == 0 {
+				return call("coalescelist", plainList(ss), plainList([]string{"other"}))
+			}
 			return call("coalescelist", tuple(), plainList(ss))
 		}
 		l, _ := p.newLocal("l", plainList(ss), decoy, stBase)
@@ -628,6 +690,8 @@ type hclFile struct {
 	text  string
 	fns   []string
 	redef int
+	bare  int
+	idx   int
 	lb    string
 	hb    string
 }
@@ -677,5 +741,5 @@ func printHCL(d *Node, r *rand.Rand, fancy int) hclFile {
 		fns = append(fns, "locals")
 	}
 	sort.Strings(fns)
-	return hclFile{text: out.String(), fns: fns, redef: p.redef, lb: lb.String(), hb: hb}
+	return hclFile{text: out.String(), fns: fns, redef: p.redef, bare: p.bare, idx: p.idx, lb: lb.String(), hb: hb}
 }
